@@ -26,6 +26,32 @@ from ..util.misc import (get_principal_component_matrix,
                          update_inv_sum_diag)
 from .iabase import IASolverBaseClass
 
+
+def _keep_dominant_directions(A: np.ndarray, n: int) -> np.ndarray:
+    """
+    Get a matrix with `n` columns spanning the `n` dominant directions of
+    the column space of `A`.
+
+    The returned matrix always has rank `n` (as long as `A` has at least
+    `n` significant singular values), no matter which combination of the
+    columns of `A` is the one without energy.
+
+    Parameters
+    ----------
+    A : np.ndarray
+        A matrix (2D numpy array) with some "dead" dimensions.
+    n : int
+        Number of dimensions to keep.
+
+    Returns
+    -------
+    np.ndarray
+        The matrix with `n` columns.
+    """
+    U, S, _ = np.linalg.svd(A, full_matrices=False)
+    return cast(np.ndarray, U[:, :n] * S[:n])
+
+
 __all__ = [
     'AlternatingMinIASolver', 'MaxSinrIASolver', 'MinLeakageIASolver',
     'ClosedFormIASolver', 'MMSEIASolver', 'GreedStreamIASolver',
@@ -708,7 +734,7 @@ class IterativeIASolverBaseClass(IASolverBaseClass):
                     # that user
                     num_significant_sing_values.append(n)
 
-                    new_F = get_principal_component_matrix(self._F[k], n)
+                    new_F = _keep_dominant_directions(self._F[k], n)
 
                     # Normalize new_F
                     new_F /= np.linalg.norm(new_F, 'fro')
@@ -718,7 +744,7 @@ class IterativeIASolverBaseClass(IASolverBaseClass):
                     if self._full_F[k] is not None:
                         # Original norm of the _full_F[k] precoder
                         original_norm = np.linalg.norm(self._full_F[k], 'fro')
-                        new_full_F = get_principal_component_matrix(
+                        new_full_F = _keep_dominant_directions(
                             self._full_F[k], n)
                         # Restore the original norm
                         new_full_F = new_full_F / np.linalg.norm(
@@ -740,7 +766,7 @@ class IterativeIASolverBaseClass(IASolverBaseClass):
                 # Since _W_H is None that means that we need to modify
                 # the _W member variable
                 for k, n in zip(mod_users, num_significant_sing_values):
-                    new_W = get_principal_component_matrix(self._W[k], n)
+                    new_W = _keep_dominant_directions(self._W[k], n)
                     self._W[k] = new_W
 
             elif self._W is None:
@@ -748,7 +774,7 @@ class IterativeIASolverBaseClass(IASolverBaseClass):
                 #  _W_H member variable
                 for k, n in zip(mod_users, num_significant_sing_values):
                     W = self._W_H[k].conj().T
-                    new_W = get_principal_component_matrix(W, n)
+                    new_W = _keep_dominant_directions(W, n)
                     self._W_H[k] = new_W.conj().T
             else:
                 # If both self._W and self._W_H are not None then
